@@ -30,6 +30,7 @@
 #include <sys/socket.h>
 #include <sys/select.h>
 #include <netinet/in.h>
+#include <netinet/tcp.h>
 #include <arpa/inet.h>
 #include <fcntl.h>
 #include <unistd.h>
@@ -49,8 +50,8 @@ uint64_t MHD_monotonic_msec_counter (void) { return vclock_ms; }
 /* ---------------------------------------------------------------- config */
 static struct {
   char mode[16]; size_t mem, incr; int lvl; unsigned limit, perip, timeout;
-  int upgrade, suspend, have_lvl; unsigned nonce_tbl; int sigpipe;
-} cfg = { "select", 0, 0, 0, 0, 0, 0, 0, 0, 0, 0, 0 };
+  int upgrade, suspend, have_lvl; unsigned nonce_tbl; int sigpipe; int tcp;
+} cfg = { "select", 0, 0, 0, 0, 0, 0, 0, 0, 0, 0, 0, 0 };
 
 static struct MHD_Daemon *d;
 
@@ -175,7 +176,10 @@ static struct MHD_Response *make_resp (int rid)
   {
     char name[] = "/tmp/vhXXXXXX"; int fd = mkstemp (name); size_t off = !strcmp (r->kind, "fdoff") ? 3 : 0;
     unlink (name);
-    for (i = 0; i < r->size + off; i++) { char ch = (i < off) ? '#' : (char) pat (rid, i - off); if (1 != write (fd, &ch, 1)) abort (); }
+    { char *fb = (char *) malloc (r->size + off + 1);
+      for (i = 0; i < r->size + off; i++) fb[i] = (i < off) ? '#' : (char) pat (rid, i - off);
+      if ((ssize_t) (r->size + off) != write (fd, fb, r->size + off)) abort ();
+      free (fb); }
     m = off ? MHD_create_response_from_fd_at_offset64 (r->size, fd, off) : MHD_create_response_from_fd (r->size, fd);
   }
   else if (!strcmp (r->kind, "pipe"))
@@ -531,6 +535,7 @@ static void report_watch (void)
 static void drain_clients (void)
 {
   int c;
+  if (cfg.tcp) usleep (300);   /* loopback delivery is practically synchronous; be generous */
   for (c = 0; c < MAXC; c++)
   {
     static uint8_t buf[1 << 16];
@@ -697,6 +702,7 @@ int main (void)
         else if (kv (l.w[i], "suspend", &v)) cfg.suspend = atoi (v);
         else if (kv (l.w[i], "nonce_tbl", &v)) cfg.nonce_tbl = (unsigned) atoi (v);
         else if (kv (l.w[i], "sigpipe", &v)) cfg.sigpipe = atoi (v);
+        else if (kv (l.w[i], "tcp", &v)) cfg.tcp = atoi (v);
       }
       out ("ok"); continue;
     }
@@ -749,6 +755,22 @@ int main (void)
     {
       int sv[2]; struct sockaddr_in sa; enum MHD_Result q;
       if (conns[a].used) { out ("bad-op"); continue; }
+      if (cfg.tcp)
+      { /* a real TCP connection over loopback: the kernel's edge-triggered write-space notifications are those MHD
+           sees in production (an AF_UNIX pair reports EPOLLOUT on every read of the peer, which hides lost edges) */
+        static int lfd = -1; static struct sockaddr_in la; socklen_t ll = sizeof(la); int one = 1;
+        if (lfd < 0)
+        { lfd = socket (AF_INET, SOCK_STREAM, 0); memset (&la, 0, sizeof(la)); la.sin_family = AF_INET; la.sin_addr.s_addr = htonl (INADDR_LOOPBACK);
+          if (lfd < 0 || 0 != bind (lfd, (struct sockaddr *) &la, sizeof(la)) || 0 != listen (lfd, 16) || 0 != getsockname (lfd, (struct sockaddr *) &la, &ll))
+          { out ("bad-op"); lfd = -1; continue; } }
+        sv[0] = socket (AF_INET, SOCK_STREAM, 0);
+        if (sv[0] < 0 || 0 != connect (sv[0], (struct sockaddr *) &la, sizeof(la))) { out ("bad-op"); continue; }
+        sv[1] = accept (lfd, NULL, NULL);
+        if (sv[1] < 0) { out ("bad-op"); continue; }
+        setsockopt (sv[0], IPPROTO_TCP, TCP_NODELAY, &one, sizeof(one));
+        fcntl (sv[0], F_SETFL, fcntl (sv[0], F_GETFL) | O_NONBLOCK); fcntl (sv[1], F_SETFL, fcntl (sv[1], F_GETFL) | O_NONBLOCK);
+      }
+      else
       if (0 != socketpair (AF_UNIX, SOCK_STREAM | SOCK_NONBLOCK, 0, sv)) { out ("bad-op"); continue; }
       memset (&sa, 0, sizeof(sa)); sa.sin_family = AF_INET; sa.sin_port = htons ((uint16_t) (1000 + a));
       sa.sin_addr.s_addr = htonl (0x0a000000u + (uint32_t) b);
